@@ -115,12 +115,12 @@ class Explorer:
                 for t, l in node.succ:
                     if l == "exc":
                         continue
-                    e2 = e
-                    if l == "break":
-                        # leaving a for loop: drop its counter
-                        e2 = {k: v for k, v in e.items() if not k.startswith("#for")} | {k: v for k, v in e.items() if k.startswith("#for") and self._loop_encloses(int(k[4:]), t)}
-                    nexts.append((t, e2))
+                    nexts.append((t, e))
             for t, e2 in nexts:
+                # leaving a for-loop (break / return / exception / continue of an outer loop) drops its unroll counter
+                stale = [k for k in e2 if k.startswith("#for") and int(k[4:]) != t and not self._loop_encloses(int(k[4:]), t)]
+                if stale:
+                    e2 = {k: v for k, v in e2.items() if k not in stale}
                 stack.append((t, e2, trail2, False))
         return out
 
